@@ -11,7 +11,7 @@ static void check_case(vg::Src& s, vh::Ctx& c)
     o.grid.large_side = c.arg >= 16 ? 72 : 40;  // ~3% large grids
     FlowCase fc = gen_flow_case(s, o);
     ProgInfo pi;
-    auto ops = gen_valid_program(s, false, &pi);
+    auto ops = gen_valid_program(s, true, &pi);  // graph snapshots are routed graphs too
     size_t n = fc.m.n;
     // source: scalar or array, non-negative or signed
     bool scalar = s.chance(90);
@@ -51,89 +51,104 @@ static void check_case(vg::Src& s, vh::Ctx& c)
 
     Built b = build(fc, ops, c);
     b.graph->update_routes(fc.z);
-    GraphState st = b.graph->state();
-    check_wellformed(c, st, n);
     auto area = b.grid->areas();
-
-    // overloads
-    std::vector<double> acc;
-    if (scalar)
-    {
-        auto a2 = b.graph->accumulate(2, {}, sc, 0);
-        auto a3 = b.graph->accumulate(3, {}, sc, -12345.5);
-        auto a0 = b.graph->accumulate(0, src, 0, 0);
-        auto a1 = b.graph->accumulate(1, src, 0, 7e77);
-        for (size_t i = 0; i < n; ++i)
-            if (!vg::biteq(a2[i], a3[i]) || !vg::biteq(a2[i], a0[i]) || !vg::biteq(a2[i], a1[i]))
-                c.fail("overloads-disagree", "node " + std::to_string(i) + ": scalar/returning " + vg::fmt(a2[i]) + " scalar/in-place " + vg::fmt(a3[i]) + " array/returning " + vg::fmt(a0[i]) + " array/in-place " + vg::fmt(a1[i]));
-        acc = a2;
-    }
-    else
-    {
-        auto a0 = b.graph->accumulate(0, src, 0, 0);
-        auto a1 = b.graph->accumulate(1, src, 0, -3.25e12);
-        for (size_t i = 0; i < n; ++i)
-            if (!vg::biteq(a0[i], a1[i]))
-                c.fail("overloads-disagree", "node " + std::to_string(i) + ": returning " + vg::fmt(a0[i]) + " in-place " + vg::fmt(a1[i]));
-        acc = a0;
-    }
-    // (a) local balance with my own inverse of the receiver table
-    std::vector<long double> rhs(n), mag(n);
-    for (size_t i = 0; i < n; ++i)
-    {
-        rhs[i] = static_cast<long double>(src[i]) * area[i];
-        mag[i] = fabsl(rhs[i]);
-    }
     size_t multi_donor_nodes = 0, multi_rec_nodes = 0;
-    bool areas_nonneg = true;
-    for (auto a : area)
-        if (a < 0)
-            areas_nonneg = false;
-    if (!areas_nonneg)
-        c.label("negative-cell-area");
-    std::vector<size_t> ndon(n, 0);
-    for (size_t j = 0; j < n; ++j)
+    auto check_graph = [&](va::IGraph& g, const std::string& tag, bool is_main)
     {
-        if (st.rec_count[j] >= 2)
-            ++multi_rec_nodes;
-        for (size_t k = 0; k < st.rec_count[j]; ++k)
+        GraphState st = g.state();
+        check_wellformed(c, st, n);
+
+        // overloads
+        std::vector<double> acc;
+        if (scalar)
         {
-            size_t r = R(st, j, k);
-            if (r == j)
-                continue;
-            long double t = static_cast<long double>(W(st, j, k)) * acc[j];
-            rhs[r] += t;
-            mag[r] += fabsl(t);
-            ndon[r]++;
+            auto a2 = g.accumulate(2, {}, sc, 0);
+            auto a3 = g.accumulate(3, {}, sc, -12345.5);
+            auto a0 = g.accumulate(0, src, 0, 0);
+            auto a1 = g.accumulate(1, src, 0, 7e77);
+            for (size_t i = 0; i < n; ++i)
+                if (!vg::biteq(a2[i], a3[i]) || !vg::biteq(a2[i], a0[i]) || !vg::biteq(a2[i], a1[i]))
+                    c.fail("overloads-disagree", tag + "node " + std::to_string(i) + ": scalar/returning " + vg::fmt(a2[i]) + " scalar/in-place " + vg::fmt(a3[i]) + " array/returning " + vg::fmt(a0[i]) + " array/in-place " + vg::fmt(a1[i]));
+            acc = a2;
         }
-    }
-    for (size_t i = 0; i < n; ++i)
+        else
+        {
+            auto a0 = g.accumulate(0, src, 0, 0);
+            auto a1 = g.accumulate(1, src, 0, -3.25e12);
+            for (size_t i = 0; i < n; ++i)
+                if (!vg::biteq(a0[i], a1[i]))
+                    c.fail("overloads-disagree", tag + "node " + std::to_string(i) + ": returning " + vg::fmt(a0[i]) + " in-place " + vg::fmt(a1[i]));
+            acc = a0;
+        }
+        // (a) local balance with my own inverse of the receiver table
+        std::vector<long double> rhs(n), mag(n);
+        for (size_t i = 0; i < n; ++i)
+        {
+            rhs[i] = static_cast<long double>(src[i]) * area[i];
+            mag[i] = fabsl(rhs[i]);
+        }
+        size_t md = 0, mr = 0;
+        bool areas_nonneg = true;
+        for (auto a : area)
+            if (a < 0)
+                areas_nonneg = false;
+        if (!areas_nonneg)
+            c.label("negative-cell-area");
+        std::vector<size_t> ndon(n, 0);
+        for (size_t j = 0; j < n; ++j)
+        {
+            if (st.rec_count[j] >= 2)
+                ++mr;
+            for (size_t k = 0; k < st.rec_count[j]; ++k)
+            {
+                size_t r = R(st, j, k);
+                if (r == j)
+                    continue;
+                long double t = static_cast<long double>(W(st, j, k)) * acc[j];
+                rhs[r] += t;
+                mag[r] += fabsl(t);
+                ndon[r]++;
+            }
+        }
+        for (size_t i = 0; i < n; ++i)
+        {
+            if (ndon[i] >= 2)
+                ++md;
+            if (!std::isfinite(acc[i]))
+                c.fail("not-finite", tag + "acc[" + std::to_string(i) + "] = " + vg::fmt(acc[i]));
+            // relative 1e-12 plus one subnormal increment per term (results near 5e-324 are rounded
+            // to a multiple of the smallest subnormal)
+            long double tol = 1e-12L * (mag[i] + fabsl(static_cast<long double>(acc[i]))) + static_cast<long double>(ndon[i] + 2) * 4.9406564584124654e-324L;
+            if (!(fabsl(static_cast<long double>(acc[i]) - rhs[i]) <= tol))
+                c.fail("local-balance", tag + "node " + std::to_string(i) + ": acc " + vg::fmt(acc[i]) + " but src*area + sum of weighted donor values = " + vg::fmt(static_cast<double>(rhs[i])) + " (" + std::to_string(ndon[i]) + " donor links)");
+            // (cell areas of a mesh with obtuse boundary triangles can be negative; the clause
+            // presupposes non-negative areas and is only applied then)
+            if (nonneg && areas_nonneg && !(static_cast<long double>(acc[i]) >= static_cast<long double>(src[i]) * area[i] - tol))
+                c.fail("below-local-contribution", tag + "node " + std::to_string(i) + ": acc " + vg::fmt(acc[i]) + " < src*area " + vg::fmt(src[i] * area[i]));
+        }
+        // (b) conservation: sum over terminal nodes = integral of the source
+        long double total = 0, totmag = 0, term = 0;
+        for (size_t i = 0; i < n; ++i)
+        {
+            total += static_cast<long double>(src[i]) * area[i];
+            totmag += fabsl(static_cast<long double>(src[i]) * area[i]);
+            if (st.rec_count[i] == 1 && R(st, i, 0) == i)
+                term += acc[i];
+        }
+        if (!(fabsl(term - total) <= 1e-9L * totmag + 1e-300L))
+            c.fail("conservation", tag + "sum over terminal nodes " + vg::fmt(static_cast<double>(term)) + " but integral of the source " + vg::fmt(static_cast<double>(total)));
+        if (is_main)
+        {
+            multi_donor_nodes = md;
+            multi_rec_nodes = mr;
+        }
+    };
+    check_graph(*b.graph, "", true);
+    for (auto& key : b.graph->graph_snapshot_keys())
     {
-        if (ndon[i] >= 2)
-            ++multi_donor_nodes;
-        if (!std::isfinite(acc[i]))
-            c.fail("not-finite", "acc[" + std::to_string(i) + "] = " + vg::fmt(acc[i]));
-        // relative 1e-12 plus one subnormal increment per term (results near 5e-324 are rounded
-        // to a multiple of the smallest subnormal)
-        long double tol = 1e-12L * (mag[i] + fabsl(static_cast<long double>(acc[i]))) + static_cast<long double>(ndon[i] + 2) * 4.9406564584124654e-324L;
-        if (!(fabsl(static_cast<long double>(acc[i]) - rhs[i]) <= tol))
-            c.fail("local-balance", "node " + std::to_string(i) + ": acc " + vg::fmt(acc[i]) + " but src*area + sum of weighted donor values = " + vg::fmt(static_cast<double>(rhs[i])) + " (" + std::to_string(ndon[i]) + " donor links)");
-        // (cell areas of a mesh with obtuse boundary triangles can be negative; the clause
-        // presupposes non-negative areas and is only applied then)
-        if (nonneg && areas_nonneg && !(static_cast<long double>(acc[i]) >= static_cast<long double>(src[i]) * area[i] - tol))
-            c.fail("below-local-contribution", "node " + std::to_string(i) + ": acc " + vg::fmt(acc[i]) + " < src*area " + vg::fmt(src[i] * area[i]));
+        check_graph(b.graph->graph_snapshot(key), "graph snapshot '" + key + "': ", false);
+        c.label("snapshot-graph-checked");
     }
-    // (b) conservation: sum over terminal nodes = integral of the source
-    long double total = 0, totmag = 0, term = 0;
-    for (size_t i = 0; i < n; ++i)
-    {
-        total += static_cast<long double>(src[i]) * area[i];
-        totmag += fabsl(static_cast<long double>(src[i]) * area[i]);
-        if (st.rec_count[i] == 1 && R(st, i, 0) == i)
-            term += acc[i];
-    }
-    if (!(fabsl(term - total) <= 1e-9L * totmag + 1e-300L))
-        c.fail("conservation", "sum over terminal nodes " + vg::fmt(static_cast<double>(term)) + " but integral of the source " + vg::fmt(static_cast<double>(total)));
     c.nontrivial = multi_donor_nodes > 0 && (!pi.final_multi || multi_rec_nodes > 0);
     c.label(pi.final_multi ? "final=multi" : "final=single");
 }
